@@ -1103,6 +1103,52 @@ def runTokenKeys (r : Report) (s : Section) : Report := Id.run do
             if m.level > c.burst then
               r := r.violation s.idx l.idx s!"token: key {q}: grants exceed burst + rate*elapsed (rate={c.rate} burst={c.burst}): excess level {m.level} > {c.burst} at now={sec}"
       | _, _, _ => r := r.mismatch s.idx l.idx "bad-op" (joinSp l.op)
+    | ["kstorm", ns, n, g, cc] =>
+      match ns.toNat?, n.toNat?, g.toNat?, cc.toNat? with
+      | some ns, some n, some g, some cc =>
+        let ninst := max 1 (kvNat s.cfg "ninst" 1)
+        let sec := ns / nsPerSec
+        let clock := sys.store.clock
+        r := r.addCover "k-storm"
+        let mut parts : List String := []
+        for q in [0:nkeys] do
+          let c := cfgOf q
+          -- the calls of key q: goroutines j < g whose instance j % ninst has key index q, cc calls each
+          let callers := (List.range g).filter fun j => (j % ninst) % nkeys == q
+          let calls := callers.length * cc
+          let mut gq := 0
+          let mut specG := 0
+          if calls > 0 then
+            if hyp q && !timedOk (ttlFixed c.rate c.burst) (hist q) clock sec then
+              hyp := updF hyp q false
+              r := r.addCover "k-hyp-broken"
+            hist := updF hist q ((clock, sec) :: hist q)
+          for j in callers do
+            for _ in [0:cc] do
+              -- all calls of a key carry the same (now, n): their order does not matter
+              let res := sys.reserveN true c (j % ninst) ns n
+              sys := res.1
+              if res.2.ok then gq := gq + 1
+              if res.2.route ≠ .store then r := r.mismatch s.idx l.idx "a request that reaches the store" impl
+              if hyp q then
+                let sp := (bucket q).allow c.rate c.burst sec n
+                bucket := updF bucket q sp.1
+                if sp.2 then specG := specG + 1
+          parts := parts ++ [s!"g{q}={gq}", tokDump c sys.store]
+          let obsG := ((kv? l.obs s!"g{q}").getD "?")
+          if calls > 0 && hyp q then
+            if obsG ≠ toString specG then
+              r := r.violation s.idx l.idx s!"token: key {q} of {nkeys} keys on one store is its own bucket (rate={c.rate} burst={c.burst}): {calls} concurrent requests n={n} now={sec}: ONE bucket grants {specG}, impl granted [{obsG}]"
+            if calls > specG then r := r.addCover "k-storm-some-denied"
+            let granted := (obsG.toNat?.getD 0) * n
+            if granted > 0 then
+              let m := (joint q).add c.rate sec granted
+              joint := updF joint q m
+              if m.level > c.burst then
+                r := r.violation s.idx l.idx s!"token: key {q}: grants exceed burst + rate*elapsed (rate={c.rate} burst={c.burst}): excess level {m.level} > {c.burst} at now={sec}"
+        let model := s!"alive={ninst} {joinSp parts}"
+        if model ≠ impl then r := r.mismatch s.idx l.idx model impl
+      | _, _, _, _ => r := r.mismatch s.idx l.idx "bad-op" (joinSp l.op)
     | _ => r := r.mismatch s.idx l.idx "bad-op" (joinSp l.op)
   return r
 
